@@ -1,7 +1,7 @@
 (* Props/C13.v -- statements claimed for C13 (geometric measures), about Model/TriaGeom.v over R. *)
 From Coq Require Import List Arith Reals.
 From LaPyV Require Import Base.Scalar Base.Vec3 Base.ListAux Base.Sparse Model.TetMesh Model.TriaAdj Model.TriaOrient
-  Model.Fem Model.TriaGeom Proofs.SparseP Proofs.FemTriaP Proofs.TriaGeomP Proofs.TriaOrientP Proofs.TriaAdjP Proofs.InvarianceP Proofs.VolumeTransP Proofs.NormalOffsetP Proofs.AreaInvarP.
+  Model.Fem Model.TriaGeom Proofs.SparseP Proofs.FemTriaP Proofs.TriaGeomP Proofs.TriaOrientP Proofs.TriaAdjP Proofs.InvarianceP Proofs.VolumeTransP Proofs.VolumeScaleP Proofs.NormalOffsetP Proofs.AreaInvarP.
 Import ListNotations.
 Open Scope R_scope.
 
@@ -115,3 +115,34 @@ Theorem C13_area_scales_with_the_square : forall s v ts, tris_in_range (length v
   area Rops (map (vscaleR s) v) ts = s * s * area Rops v ts.
 Proof. exact area_scales_with_square. Qed.
 Print Assumptions C13_area_scales_with_the_square.
+
+(* volume: multiplied by s^3 under p -> s p, by det M under any linear map p -> M p, hence kept by every proper rigid motion
+   p -> Q p + b (det Q = 1) and negated by improper ones (an orthogonal Q has det^2 = 1); the ValueError of a closed unoriented
+   mesh does not depend on the coordinates *)
+Theorem C13_volume_scales_with_the_cube : forall s v ts, tris_in_range (length v) ts ->
+  forall x, tria_volume Rops v ts = Ok x -> tria_volume Rops (map (vscaleR s) v) ts = Ok (s * s * s * x).
+Proof. exact tria_volume_scales_with_cube. Qed.
+Print Assumptions C13_volume_scales_with_the_cube.
+
+Theorem C13_volume_under_rigid_motion_is_multiplied_by_det : forall Q b v ts, Forall distinct_tri ts -> tris_in_range (length v) ts ->
+  forall x, tria_volume Rops v ts = Ok x -> tria_volume Rops (map (rigid Q b) v) ts = Ok (det3 Q * x).
+Proof. exact tria_volume_rigid. Qed.
+Print Assumptions C13_volume_under_rigid_motion_is_multiplied_by_det.
+
+Theorem C13_volume_invariant_under_proper_rigid_motion : forall Q b v ts, det3 Q = 1 -> Forall distinct_tri ts -> tris_in_range (length v) ts ->
+  forall x, tria_volume Rops v ts = Ok x -> tria_volume Rops (map (rigid Q b) v) ts = Ok x.
+Proof. exact tria_volume_rotation_invariant. Qed.
+Print Assumptions C13_volume_invariant_under_proper_rigid_motion.
+
+Theorem C13_orthogonal_matrix_has_unit_det_square : forall Q, orthogonal Q -> det3 Q * det3 Q = 1.
+Proof. exact orthogonal_det_sq. Qed.
+Print Assumptions C13_orthogonal_matrix_has_unit_det_square.
+
+Theorem C13_volume_error_is_coordinate_independent : forall Q b v ts e,
+  tria_volume Rops v ts = Err e -> tria_volume Rops (map (rigid Q b) v) ts = Err e.
+Proof. exact tria_volume_rigid_err. Qed.
+Print Assumptions C13_volume_error_is_coordinate_independent.
+
+Example C13_volume_scale_rotation_example : tria_volume Rops (map (vscaleR 2) vt_v) vt_ts = Ok (2 * 2 * 2 * (1 / 6)) /\
+  orthogonal quarter_z /\ det3 quarter_z = 1 /\ tria_volume Rops (map (rigid quarter_z (5, -3, 2)) vt_v) vt_ts = Ok (1 / 6).
+Proof. exact volume_scale_example. Qed.
